@@ -46,6 +46,7 @@ type Contract struct {
 	LoopInv     map[int][]Clause
 	LoopMod     map[int][]ModLoc
 	Asserts     []CallAssert
+	Ghosts      []CallAssert // ghost at <callee> name: expr  (value recorded after every matching call)
 	Trusted     string
 	NoPanic     bool // default true: safety obligations generated
 	Fresh       bool // result is freshly allocated (shorthand)
@@ -168,7 +169,7 @@ func LoadContracts(cs *ContractSet, pkgPath, file string) error {
 		line int
 	}
 	var logical []ll
-	kw := regexp.MustCompile(`^(func|property|safety|requires|ensures|mustfail|assume|modifies|loop|trusted|assert|pred|implementers|axiom|lemma|fresh|pure|declare|inline|nopanic|uses|global|assumeframe|nonlinear|premise|fold)\b`)
+	kw := regexp.MustCompile(`^(func|property|safety|requires|ensures|mustfail|assume|modifies|loop|trusted|assert|pred|implementers|axiom|lemma|fresh|pure|declare|inline|nopanic|uses|global|assumeframe|nonlinear|premise|fold|ghost)\b`)
 	for i, l := range lines {
 		t := strings.TrimSpace(l)
 		if !strings.HasPrefix(t, "//@") {
@@ -423,6 +424,18 @@ func LoadContracts(cs *ContractSet, pkgPath, file string) error {
 					n, _ = strconv.Atoi(m[2])
 				}
 				cur.Asserts = append(cur.Asserts, CallAssert{Callee: m[1], Nth: n, Cl: Clause{Label: m[3], Src: m[4], E: e, Line: l.line}})
+			case "ghost":
+				// ghost at <callee> name: expr  - records the value of expr (over the call's arguments $0.. and
+				// its result $r / $r0, $r1) in a ghost variable after every matching call; read with ghost(name)
+				m := regexp.MustCompile(`^at\s+(\S+?)\s+([A-Za-z0-9_]+):\s+(.*)$`).FindStringSubmatch(rest)
+				if m == nil {
+					return fail(fmt.Errorf("bad ghost"))
+				}
+				e, err := ParseSpec(m[3])
+				if err != nil {
+					return fail(err)
+				}
+				cur.Ghosts = append(cur.Ghosts, CallAssert{Callee: m[1], Nth: -1, Cl: Clause{Label: m[2], Src: m[3], E: e, Line: l.line}})
 			case "lemma":
 				// lemma at <where>: name(args)
 				m := regexp.MustCompile(`^at\s+(.*?):\s+([A-Za-z0-9_]+)\((.*)\)$`).FindStringSubmatch(rest)
